@@ -1,6 +1,7 @@
 //! vh: conformance harness binding the TLA+ specifications in /verif/specs to
 //! the real rustradio code in /repo (built with --cfg rustradio_verif).
 mod common;
+mod mt;
 mod ring;
 
 fn main() {
@@ -10,6 +11,8 @@ fn main() {
     let code = match cmd {
         "ring-replay" => ring::cmd_replay(rest),
         "ring-trace" => ring::cmd_trace(rest),
+        "mt-random" => mt::cmd_random(rest),
+        "mt-replay" => mt::cmd_replay(rest),
         _ => {
             eprintln!("unknown command {cmd}");
             2
